@@ -22,7 +22,7 @@
      run; the model uses one value);
    * the disk holds two optional gob maps; reads and writes can fail as inputs
      (faults); atomicGobWrite is "old or new" per file, in program order. *)
-From Sdns Require Import Common.Base Gen.C09.
+From Sdns Require Import Common.Base Common.GoList Gen.C09.
 Open Scope N_scope.
 
 (* ---------------------------------------------------------------- keys *)
@@ -31,7 +31,7 @@ Definition key_eqb (a b : key) : bool := (k_mat a =? k_mat b) && (k_flags a =? k
 Definition has_flag (f : N) (k : key) : bool := negb (N.land (k_flags k) f =? 0).
 Definition is_ksk : key -> bool := has_flag go_flag_ksk.      (* Flags&DNSKEYFlagKSK != 0 *)
 Definition is_rev : key -> bool := has_flag go_flag_revoke.   (* Flags&DNSKEYFlagRevoke != 0 *)
-Definition flag_zone : N := 256.                               (* dns.ZONE *)
+Definition flag_zone : N := go_flag_zone.                      (* dns.ZONE, read from usableSignatureCandidate *)
 Definition is_zone : key -> bool := has_flag flag_zone.
 
 (* sameKeyExceptRevoke(currentKey, revokedKey) *)
@@ -73,6 +73,17 @@ Definition hold_rem : Z := (go_hold_rem_ns / ns_per_min)%Z.
 
 (* unrevokedKeyTag's argument: the same key with the REVOKE bit cleared (plain.Flags &^= DNSKEYFlagRevoke) *)
 Definition unrev (k : key) : key := mk_key (k_mat k) (N.ldiff (k_flags k) go_unrevoke_mask).
+
+(* dnssec.KeyTag (keytag.go) for a key whose decoded material fits one chunk (<= 192 octets: every
+   Ed25519 / ECDSA / RSA-1024 key): RFC 4034 Appendix B.  The head (flags, protocol, algorithm) and the
+   final fold are written from the source; the octet sum is the loop srcgen translates from the function
+   body (go_KeyTag_loop2_run).  The theorems never use it — there the tag is an arbitrary function — it
+   is tied to the code by the CTag cases and shows where tag(revoked) - tag comes from. *)
+Definition keytag_of (flags proto alg : N) (material : list N) : N :=
+  let sum0 := wrap32 (wrap32 (wrap32 (N.shiftl (N.shiftr flags 8) 8 + N.land flags 255) + N.shiftl proto 8) + alg) in
+  let '(_, (sum1, _, _)) := go_KeyTag_loop2_run sum0 material (Z.of_nat (length material)) in
+  let sum2 := wrap32 (sum1 + N.land (N.shiftr sum1 16) 65535) in
+  N.land sum2 65535.
 
 (* ---------------------------------------------------------------- fetch *)
 Record sig := mk_sig { s_tag : N; s_mat : N; s_ok : bool }.
